@@ -10,6 +10,7 @@ mod hirobs;
 mod horacle;
 mod fsrun;
 mod names;
+mod serdegen;
 mod spec;
 mod specgen;
 mod util;
